@@ -45,7 +45,17 @@ pub fn catch<T>(f: impl FnOnce() -> T) -> Result<T, String> {
 pub fn msg_class(msg: &str) -> String {
     let mut out = String::new();
     let mut lastdigit = false;
+    let mut inquote = false;
     for c in msg.chars() {
+        // content between backticks is data (texts, ids) quoted by std panics: not part of the class
+        if c == '`' {
+            inquote = !inquote;
+            out.push('`');
+            continue;
+        }
+        if inquote {
+            continue;
+        }
         if c.is_ascii_digit() {
             if !lastdigit {
                 out.push('N');
